@@ -105,4 +105,44 @@ mod verif_replay {
             Err(_) => println!("REPLAY-FAIL c14_as_equal_slice panicked"),
         }
     }
+
+    /// C04 on the client: the acceptance test relative to the announced modulus (bounded search)
+    #[test]
+    fn verif_search_c04_client_key() {
+        use crate::primes::LargeSafePrime;
+        let seed = std::env::var("VERIF_SEED").ok().and_then(|s| s.parse::<u64>().ok()).unwrap_or(0) ^ 0x9E3779B97F4A7C15;
+        let mut r = seed;
+        let mut next = move || { r ^= r << 13; r ^= r >> 7; r ^= r << 17; r };
+        let le = |v: u128| { let mut b = [0u8; 32]; b[..16].copy_from_slice(&v.to_le_bytes()); b };
+        let mut moduli: Vec<u128> = (1..=300u128).collect();
+        moduli.extend([65537u128, 2147483647, 6, 254, 1 << 64, (1u128 << 100) + 7]);
+        let mut n = 0u64;
+        for m in moduli {
+            let mut cands: Vec<u128> = vec![0, 1, m - 1, m, m + 1, 2 * m, 3 * m, 7 * m + 1];
+            if m <= 300 { cands.extend(0..=2 * m); }
+            for d in 1..=12u128 { if m % d == 0 { cands.push(d); cands.push(m / d); } }
+            for _ in 0..20 { cands.push(next() as u128 % (4 * m + 5)); }
+            for a in cands {
+                n += 1;
+                let got = std::panic::catch_unwind(|| PublicKey::client_try_from_bigint(crate::bigint::Integer::from_bytes_le(&a.to_le_bytes()), &LargeSafePrime::from_le_bytes(le(m))));
+                let want = if a == 0 { "zero" } else if a % m == 0 { "modzero" } else { "ok" };
+                let have = match &got { Err(_) => "panic", Ok(Err(InvalidPublicKeyError::PublicKeyIsZero)) => "zero", Ok(Err(InvalidPublicKeyError::PublicKeyModLargeSafePrimeIsZero)) => "modzero", Ok(Ok(k)) => if *k.as_le_bytes() == le(a) { "ok" } else { "ok-but-changed" } };
+                if want != have { println!("REPLAY-FAIL c04_client_key A={} modulus={} expected={} actual={}", a, m, want, have); return; }
+            }
+        }
+        // server side: only 0 and N are refused
+        let nn = LARGE_SAFE_PRIME_LITTLE_ENDIAN;
+        for i in 0..2000 {
+            let mut k = [0u8; 32];
+            match i % 4 { 0 => { for x in k.iter_mut() { *x = next() as u8; } }, 1 => { k = nn; let p = (next() % 32) as usize; k[p] ^= 1 << (next() % 8); },
+                          2 => { let p = (next() % 32) as usize; k[p] = 1 << (next() % 8); }, _ => { for (j, x) in k.iter_mut().enumerate() { if next() % 2 == 0 { *x = nn[j]; } } } }
+            n += 1;
+            let want_ok = k != [0u8; 32] && k != nn;
+            let got = PublicKey::try_from_bigint(crate::bigint::Integer::from_bytes_le(&k));
+            match got { Ok(p) => { if !want_ok || *p.as_le_bytes() != k { println!("REPLAY-FAIL c04_client_key try_from_bigint accepted/changed key={:02x?}", k); return; } }
+                        Err(_) => { if want_ok { println!("REPLAY-FAIL c04_client_key try_from_bigint refused the valid key {:02x?}", k); return; } } }
+        }
+        println!("REPLAY-STATS c04_client_key inputs={} all-ok", n);
+    }
 }
+
